@@ -70,6 +70,17 @@ def build_tree(rng, root):
     w(os.path.join(root, fs1), "<schema extends=%s><multikey name='k'/><key name='inc'/></schema>" % _qa(q(d1 + "/" + midn) + "#x"))
     w(os.path.join(lib, fmid), "<schema><import src=%s/><key name='mid' default='m'/></schema>" % _qa(q(d2 + "/" + basen) + "#types"))
     w(os.path.join(root, fs2), "<schema extends=%s><multikey name='k'/><key name='inc'/></schema>" % _qa(q(d1 + "/" + fmid)))
+    # several bases, the fragment on the first, on the last, in the middle: every position must be rejected
+    obn = rand_name(rng, "-ob.xml")
+    w(os.path.join(root, obn), "<schema><key name='otherbasekey'/></schema>")
+    ob2 = rand_name(rng, "-ob2.xml")
+    w(os.path.join(root, ob2), "<schema><key name='otherbasekey2'/></schema>")
+    multi = []
+    for i, ext in enumerate([q(d1 + "/" + midn) + " " + q(obn) + "#x", q(obn) + " " + q(d1 + "/" + midn) + "#x", q(obn) + "#x " + q(d1 + "/" + midn),
+                             q(obn) + " " + q(ob2) + "#mid " + q(d1 + "/" + midn)]):
+        fsn = rand_name(rng, "-s%d.xml" % (3 + i))
+        w(os.path.join(root, fsn), "<schema extends=%s><multikey name='k'/><key name='inc'/></schema>" % _qa(ext))
+        multi.append(os.path.join(root, fsn))
     # a schema whose <import src=…> needs percent-escapes (sibling file with a space and a non-ASCII letter in its name)
     tyn = "ty pes \u00e9" + rand_name(rng, ".xml")
     impn = rand_name(rng, "-imp.xml")
@@ -90,7 +101,7 @@ def build_tree(rng, root):
             "import_schema": os.path.join(lib, impn), "same_rel": (d2 + "/" + basen, d2 + "/" + bn, root, lib),
             "linked_config": os.path.join(site, ln), "linked_expect": ["from-linked", "part-next-to-link", "done"],
             "frag_configs": [os.path.join(root, fm1), os.path.join(root, fm2)],
-            "frag_schemas": [os.path.join(root, fs1), os.path.join(root, fs2)]}
+            "frag_schemas": [os.path.join(root, fs1), os.path.join(root, fs2)] + multi}
 
 
 def _qa(s):
